@@ -25,7 +25,7 @@ def _body(fn: ast.FunctionDef) -> List[ast.stmt]:
     b = list(fn.body)
     if b and isinstance(b[0], ast.Expr) and isinstance(b[0].value, ast.Constant) and isinstance(b[0].value.value, str):
         b = b[1:]
-    return b
+    return [x for x in b if not isinstance(x, ast.Pass)]
 
 
 def _only_raises(stmts: List[ast.stmt], mi=None, depth: int = 0) -> bool:
